@@ -550,13 +550,14 @@ class TimeDelta:
 
     def __str__(self) -> str:
         """Return repr(self)."""
-        days = self.days
-        seconds = self.seconds
+        # Display up to 18 digits of fractional seconds, rounded to the nearest digit. Round the
+        # whole value before splitting it into fields so that a fraction that rounds up to 1.0
+        # carries into the seconds instead of being displayed as ".1".
+        attoseconds = (10**18 * self._ticks + _TICKS_PER_SECOND // 2) // _TICKS_PER_SECOND
+        seconds, fractional_seconds = divmod(attoseconds, 10**18)
+        days, seconds = divmod(seconds, _SECONDS_PER_DAY)
         minutes, seconds = divmod(seconds, 60)
         hours, minutes = divmod(minutes, 60)
-        # Display up to 18 digits of fractional seconds, rounded to the nearest digit.
-        fractional_seconds = 10**18 * (self._ticks & _FRACTIONAL_SECONDS_MASK)
-        fractional_seconds = (fractional_seconds + _TICKS_PER_SECOND // 2) // _TICKS_PER_SECOND
         s = f"{days} day, " if abs(days) == 1 else f"{days} days, " if days else ""
         s += f"{hours}:{minutes:02}:{seconds:02}"
         if fractional_seconds != 0:
